@@ -656,9 +656,33 @@ var checkPure = ev.Register("purity-determinism-races", func(in *Inputs) ev.Outc
 		}
 		return ev.Outcome{}
 	}
-	order := []func() ev.Outcome{sequential, concurrent}
+	neighbours := func() ev.Outcome {
+		p0 := 0.05 + 0.9*in.Q
+		for _, e := range preg {
+			for _, d := range []float64{1e-7, -3e-10, 1e-13, 0} {
+				p1 := p0 * (1 + d)
+				if d == 0 {
+					p1 = math.Nextafter(p0, 1)
+				}
+				a := e.call(s, p0)
+				b1 := e.call(s, p1) // directly after its neighbour
+				e.call(s, 1-p0)     // somewhere else entirely
+				e.call(s, 0.5*p0)
+				b2 := e.call(s, p1) // after unrelated calls
+				a2 := e.call(s, p0)
+				if b1 != b2 || a != a2 {
+					return ev.Fail("%s depends on the calls made before: at p=%v it returned\n%s directly after the call at p=%v, but\n%s after calls elsewhere (and at p=%v: %s / %s)", e.name, p1, clip(b1), p0, clip(b2), p0, clip(a), clip(a2))
+				}
+			}
+		}
+		if after := s.snapshot(); after != base {
+			return ev.Fail("arguments modified during the neighbour phase:\nbefore %s\nafter  %s", diff(base, after), diff(after, base))
+		}
+		return ev.Outcome{}
+	}
+	order := []func() ev.Outcome{sequential, concurrent, neighbours}
 	if in.ConcurrentFirst {
-		order = []func() ev.Outcome{concurrent, sequential}
+		order = []func() ev.Outcome{concurrent, sequential, neighbours}
 	}
 	for _, phase := range order {
 		if out := phase(); out.Err != nil {
@@ -666,7 +690,7 @@ var checkPure = ev.Register("purity-determinism-races", func(in *Inputs) ev.Outc
 		}
 	}
 	const G = 16
-	ev.AddCount("api_calls", int64(len(reg)*(2+G)))
+	ev.AddCount("api_calls", int64(len(reg)*(2+G)+len(preg)*24))
 	// non-trivial: unsorted with a tie
 	tie := false
 	seen := map[float64]bool{}
@@ -682,6 +706,67 @@ var checkPure = ev.Register("purity-determinism-races", func(in *Inputs) ev.Outc
 	}
 	return ev.OK(n >= 3 && tie && !sort.Float64sAreSorted(in.X1), "registry", cl)
 })
+
+// pentry is an API call with one real parameter in (0,1): used by the neighbour phase, which
+// looks for state keyed by an *approximately* equal argument (a cache with a tolerant hit test):
+// f(p1) directly after f(p0), p1 within 1e-15..1e-6 of p0, must equal f(p1) after an unrelated
+// far-away call has displaced whatever f(p0) left behind.
+type pentry struct {
+	name string
+	call func(s *shared, p float64) string
+}
+
+func pregistry() []pentry {
+	var es []pentry
+	add := func(name string, f func(s *shared, p float64) string) { es = append(es, pentry{name, f}) }
+	add("MeanCI(c)", func(s *shared, p float64) string {
+		a, b, c := stats.MeanCI(s.x1, p)
+		d, e, f := stats.Sample{Xs: s.x2}.MeanCI(p)
+		return fb(a) + fb(b) + fb(c) + fb(d) + fb(e) + fb(f)
+	})
+	add("QuantileCI(c)", func(s *shared, p float64) string {
+		return fmt.Sprintf("%+v%+v", stats.QuantileCI(len(s.x1), 0.3, p), stats.QuantileCI(len(s.x1)+40, 0.6, p))
+	})
+	add("QuantileCI(q)", func(s *shared, p float64) string {
+		return fmt.Sprintf("%+v%+v", stats.QuantileCI(len(s.x1), p, 0.9), stats.QuantileCI(len(s.x1)+40, p, 0.9))
+	})
+	add("Sample.Quantile(q)", func(s *shared, p float64) string {
+		return fb(stats.Sample{Xs: s.x1}.Quantile(p)) + fb(stats.Sample{Xs: s.x1, Weights: s.w}.Quantile(p)) + fb(stats.Sample{Xs: s.xa, Sorted: true}.Quantile(p))
+	})
+	add("distributions(x)", func(s *shared, p float64) string {
+		t, n := stats.TDist{V: 4.5}, stats.NormalDist{Mu: 1, Sigma: 2}
+		u := stats.UDist{N1: 5, N2: 7}
+		return fb(t.CDF(3*p)) + fb(t.PDF(3*p)) + fb(n.CDF(3*p)) + fb(n.InvCDF(p)) + fb(s.invT(p)) + fb(s.invK(p)) + fb(u.CDF(35*p)) +
+			fb(stats.BinomialDist{N: 30, P: p}.PMF(11)) + fb(stats.BinomialDist{N: 30, P: p}.CDF(11))
+	})
+	add("mathx(x)", func(s *shared, p float64) string {
+		return fb(mathx.BetaInc(p, 2.5, 3.5)) + fb(mathx.GammaInc(2.5, 6*p)) + fb(mathx.GammaIncComp(2.5, 6*p)) + fb(mathx.Beta(1+p, 2))
+	})
+	add("KDE(x)", func(s *shared, p float64) string {
+		lo, hi := stats.Bounds(s.in.X1)
+		x := lo + p*(hi-lo)
+		var b strings.Builder
+		for _, k := range s.kdes {
+			b.WriteString(fb(k.PDF(x)) + fb(k.CDF(x)))
+		}
+		return b.String()
+	})
+	add("HistogramQuantile(q)", func(s *shared, p float64) string {
+		return fb(stats.HistogramQuantile(s.hist, p)) + fb(stats.HistogramQuantile(s.loghist, p))
+	})
+	add("scales(x)", func(s *shared, p float64) string {
+		lin := scale.Linear{Min: -2, Max: 7}
+		lg, _ := scale.NewLog(0.5, 300, 10)
+		return fb(lin.Map(9*p-2)) + fb(lin.Unmap(p)) + fb(lg.Map(0.5+299*p)) + fb(lg.Unmap(p))
+	})
+	add("fitted functions(x)", func(s *shared, p float64) string {
+		x := p * float64(len(s.x1))
+		return fb(s.loess(x)) + fb(s.loess0(x)) + fb(s.poly.F(x))
+	})
+	return es
+}
+
+var preg = pregistry()
 
 func clip(s string) string {
 	if len(s) > 300 {
